@@ -73,10 +73,16 @@ GHIST_SCENARIOS = [
 ]
 
 
-def build_ghist(scn_idx):
+def build_ghist(scn_idx, gen=None):
     import ak.ghist as G
     import logging
     logging.getLogger("ak.ghist").setLevel(logging.ERROR)
+    if gen is not None:
+        # a generated single-repository history (same case format as the C06 check)
+        from checks import c06_history_report as c6
+        cls = fakegit.make_project_repo_class(G, {}, name="Repo_main")
+        prj = cls("main", fakegit.FakeRepo(c6.build_spec(gen)), "origin")
+        return G.ReposCollection({"main": prj}).make_report(gen["search"])
     scn = GHIST_SCENARIOS[scn_idx % len(GHIST_SCENARIOS)]
     repos = {}
     for r in scn["repos"]:
@@ -173,7 +179,7 @@ class Obj:
             self.record = R(*spec["record"])
             self.fmt = P.PPRecordFmt(spec["fmt"], sample_record=self.record)
         elif k == "ghist":
-            self.report = build_ghist(spec["which"])
+            self.report = build_ghist(spec.get("which", 0), spec.get("gen"))
         elif k == "hdoc":
             pass
         elif k == "confreport":
